@@ -11,6 +11,7 @@ RULE = ("random models of every class (BQM float64/float32/object and their spin
         "model variable dropped / a DQM case out of range; also the deprecated (mapping, labels) samples-like with independent dict / label orders, CQM expressions after a random "
         "remove_variable / fix_variable history on a parent whose variable order is a random permutation, DQMs whose case interactions are set one pair at a time in shuffled order and orientation "
         "with multi-row shuffled matrices, QMs in float32 storage, views over float32 / object bases, unlabelled arrays / lists of rows / flat rows for models labelled range(n), zero-row arrays, "
+        "float32 models with large power-of-two biases whose partial sums are not representable in float32 (accumulation must be in the float64 result), the EXPRESSION's own remove_variable (objective / lhs .remove_variable, early slots of >= 3-variable expressions) in the history, "
         "the singular energy() whenever one row is given, the dtype= keyword of energies, relabel_variables in the CQM parent's history, DQM SampleSet form and omitted variables, BinaryPolynomial dict form and omitted variables, the samples-like objects themselves (also as iterators, unlabelled and mixed lists) fed to the as_samples model, and the raw internal state of each object fed to the code-shaped loop models; non-trivial = model has a term (or is the constant-only expression); distinct by case JSON")
 TRUSTED = ["model: coq/theories/Model/{Poly,HPoly,Samples,ChkC01}.v; code-shaped loop models Model/{EnergyCy,DqmLoop,HPolyLoop,PyBqm}.v over Model/Adj.v (each proved equal to the polynomial-level definition and evaluated on the raw state the implementation exposes: _ilinear/_ineighborhood, _iindices/_iquadratic, to_numpy_vectors/_cydqm.adj, pyBQM._adj)",
            "float arithmetic of the implementation is exact on the generated dyadic data (not verified)"]
